@@ -1,7 +1,7 @@
 ---------------------------- MODULE KVRange_mc ----------------------------
 EXTENDS KVRange, KVRangeCases
 
-AllClaims == \A i \in 1..Len(Cases) : DeleteRangeClaims(Cases[i])
+AllClaims == \A i \in 1..Len(Cases) : DeleteRangeClaims(Cases[i]) /\ RewriteClaims(Cases[i])
 
-Emit == PrintT(ToJson([i \in 1..Len(Cases) |-> [reads |-> Reads1(Cases[i]), drfails |-> DRFails(Cases[i])]]))
+Emit == PrintT(ToJson([i \in 1..Len(Cases) |-> [reads |-> Reads2(Cases[i]), ureads |-> UReads(Cases[i]), drfails |-> DRFails(Cases[i])]]))
 =============================================================================
